@@ -3,10 +3,11 @@ PROP = {'title': 'Random wrappers are transparent and stay within the requested 
  'engine': 'E',
  'technique': 'exhaustive enumeration of (engine, result type, interval or parameter set, seed) over a finite stated seed set; '
               'lock-step differential of 64 draws against the std:: engine + std:: distribution the wrappers are documented to wrap, '
-              'plus direct bound checks; compile probes for members that are never instantiated by the sequences',
+              'plus direct bound checks; compile probes for the members that did not compile before the F20 fixes',
  'level_text': 'Every combination of the stated engines, result types, intervals/parameter sets and seeds is run on the real templates '
                'through every way of drawing (basic(param), basic(t1,t2), make_variate(make_basic), variate(gen,param), '
-               'uniform_container, factories) and compared draw by draw with the equivalent std:: pair; the pseudo-random numbers are a '
+               'basic(d.param()), basic(convert_to(std)), d(gen,param) on a distribution storing other parameters, alone and '
+               'interleaved with d(gen), uniform_container, factories) and compared draw by draw with the equivalent std:: pair; the pseudo-random numbers are a '
                'deterministic function of the enumerated seed, so nothing is sampled. An off-by-one in an enum/index interval or a '
                'mistranslated parameter changes the sequence for almost every seed and is also caught by the direct bound and '
                'both-ends-reached checks.',
@@ -30,7 +31,9 @@ PROP = {'title': 'Random wrappers are transparent and stay within the requested 
          'and make_uniform_container(_advanced) for containers of size 0..6 (vector, const vector, vector<string>, deque, string, list); '
          'uniform_real (32 (min,sup) pairs) and normal (16 (mean,stddev) pairs) over float/double/strong typedef, with and without '
          'reset(); three variates sharing one generator; param() setter between draws; the raw generators (1300 draws, seed and '
-         'seed_seq constructors). A case is one (family<type,engine>, parameters, seed) with 64 draws through every drawing path; case '
+         'seed_seq constructors). Every distribution case also checks the param() getter (fresh, after per-call draws, after '
+         'param(set)) and Parameters::convert_to(std distribution) through convert_from(). A case is one (family<type,engine>, '
+         'parameters, seed) with 64 draws through every drawing path; case '
          'descriptors read family(a, b, seed), factory(size, seed). A case is non-trivial when the distribution has more than one '
          'possible outcome (a<b, size>1, any real-valued distribution) or is the empty-container guard; "...:ends" / '
          '":all_enumerators" / ":all_elements" cases sweep the whole seed set for one parameter set and check that both ends / every '
@@ -43,5 +46,7 @@ PROP = {'title': 'Random wrappers are transparent and stay within the requested 
                  'char-sized result types are not instantiated (std::uniform_int_distribution does not support them)',
                  'type_iso::boost_units result types and user-defined type_iso::transform specialisations are not covered',
                  'stream operators << and >> of distribution::basic are outside the statement and not checked',
-                 'members that the sequences never instantiate (operator()(rng, param), param() getter, convert_to) are covered by '
-                 'compile probes only: they have to compile']}
+                 'the parameter classes have no accessors: parameters read back by param() / convert_to() are observed through '
+                 'convert_from() (itself checked against the numbers put in via distribution().param()) and by drawing from a '
+                 'distribution rebuilt from them',
+                 'the compile probes for operator()(rng, param), param() and convert_to are kept beside the runtime checks']}
